@@ -3,6 +3,9 @@ CONSTANTS
   Codec = "bijective"
   Place = "byref"
   Window = 4
+  WindowRows = 4
+  MergeMode = "all"
+  Ordered = FALSE
   Offsets <- OffAll
   Rects <- WindowRects
   MaxCells = 5
